@@ -114,6 +114,8 @@ type State struct {
 	Interleave bool
 	// GoOrder: at a go statement the new goroutine may run first (until it blocks) — a solver-visible choice; GoForks counts them
 	GoOrder bool
+	// MapOrder: a range over a built-in map of >= 2 entries visits them in listing or in reverse order — a solver-visible choice
+	MapOrder bool
 	GoForks int
 	Switches   int
 	// ParStack: saved heaps for verifPar
